@@ -39,7 +39,7 @@ class MemoryStorage(AbstractStorage):
             "client": client,
             "hostname": hostname,
             "created": created,
-            "data": data or {},
+            "data": copy.deepcopy(data) if data else {},
         }
         self.db[bucket_id] = []
 
@@ -62,7 +62,7 @@ class MemoryStorage(AbstractStorage):
             if name:
                 self._metadata[bucket_id]["name"] = name
             if data:
-                self._metadata[bucket_id]["data"] = data
+                self._metadata[bucket_id]["data"] = copy.deepcopy(data)
         else:
             raise ValueError("Bucket did not exist, could not update")
 
@@ -132,7 +132,7 @@ class MemoryStorage(AbstractStorage):
 
     def get_metadata(self, bucket_id: str):
         if bucket_id in self._metadata:
-            return self._metadata[bucket_id]
+            return copy.deepcopy(self._metadata[bucket_id])
         else:
             raise ValueError("Bucket did not exist, could not get metadata")
 
@@ -141,12 +141,15 @@ class MemoryStorage(AbstractStorage):
             self.replace(bucket, event.id, event)
         else:
             # We need to copy the event to avoid setting the ID on the passed event
-            event = copy.copy(event)
+            # (a deep copy, so that the stored event shares nothing with the caller's)
+            event = copy.deepcopy(event)
             if self.db[bucket]:
                 event.id = max(int(e.id or 0) for e in self.db[bucket]) + 1
             else:
                 event.id = 0
             self.db[bucket].append(event)
+            # Hand out a copy, not the stored object itself
+            event = copy.deepcopy(event)
         return event
 
     def delete(self, bucket_id, event_id):
@@ -177,7 +180,7 @@ class MemoryStorage(AbstractStorage):
             if event.id == event_id
         ):
             # We need to copy the event to avoid setting the ID on the passed event
-            event = copy.copy(event)
+            event = copy.deepcopy(event)
             event.id = event_id
             self.db[bucket_id][idx] = event
 
